@@ -116,7 +116,7 @@ def main():
             if "error" in r:
                 f.write("| %s | ERROR %s |\n" % (r["name"], r["error"])); continue
             f.write("| %s | %s | `%s`: %s | %s | %d%s | %s | %s | %s | %s |\n" % (
-                r["name"], r["kind"], r["file"], r["what"], r["hit"], r["rc"],
+                r["name"], r["kind"], r["file"], r["what"].replace("|", "\\|"), r["hit"], r["rc"],
                 " `no-failing-input-found`" if "no-failing-input-found" in r["line"] else "",
                 r.get("changed", ""), ", ".join(r["functions"]) or "-", ", ".join(r["blocked"]) or "-", r.get("still") or "-"))
         f.write("\n## Replay texts (the `broken` field of the replay file: function, Coq error, diff of the generated definition)\n\n")
